@@ -86,7 +86,7 @@ def run_units(units, jobs=None):
             if os.environ.get('VERIF_PROGRESS'):
                 sys.stderr.write('[%d/%d] %s %.1fs paths=%d obl=%d proved=%d %s\n' % (
                     done, len(units), units[i].name, res.seconds, res.paths, len(res.obligations), res.proved,
-                    '; '.join(res.unsupported)[:160]))
+                    ('; '.join(res.unsupported) + (' ERROR ' + res.error.strip().splitlines()[-1] if res.error else ''))[:200]))
                 sys.stderr.flush()
     return results
 
